@@ -716,6 +716,11 @@ class Interp(object):
             return TypeV(full)
         if full in ('math.pi', 'math.e', 'math.inf', 'math.nan', 'math.tau'):
             return Atom(full, [], 'float')
+        if full.startswith('re.') and full[3:].isupper():
+            import re as _re
+            fl = getattr(_re, full[3:], None)
+            if fl is not None:
+                return Const(int(fl))
         return Builtin(full)
 
     def const_expr(self, m, node):
